@@ -128,6 +128,18 @@ CHECKS = {
             "Rocq totality proof for the SubRip models (partial) + structure-aware mutation under recover()/watchdog on the implementation",
             "partial: exploration level for WebVTT, SSA, TTML, STL, teletext (no Gallina models of those readers yet); running time is "
             "only observed through the watchdog."),
+    "C07": (True,
+            "Theorems: the codec dispatch is case-insensitive, an unsupported extension yields the invalid-extension error for reading "
+            "and writing, .ts is read-only, an empty list yields nothing-to-write (SubRip model). The 7x6 conversion matrix is decided on "
+            "the implementation: sources rendered by the harness's own encoders (SubRip renderer, minimal WebVTT/SSA/TTML renderers, an "
+            "EBU STL encoder for display standards 0/1/2, a teletext-in-TS encoder through the astits muxer) from ground-truth cue lists, "
+            "0..4 operations with random parameters through the library and one through the built CLI binary, the destination re-read and "
+            "compared (count, order, times truncated to the destination unit, text without white space) with the composed reference "
+            "semantics of the operations; extension dispatch compared with the extracted model.",
+            "Rocq proof of the dispatch model (partial) + conversion matrix through file API and CLI on the implementation",
+            "partial: the pairwise write/read theorems need the WebVTT/SSA/TTML/STL/teletext codec models, which do not exist yet "
+            "(SubRip: C01); texts are plain Latin words; styled and metadata-bearing sources are exercised by C08/C19 for panics and "
+            "determinism only."),
 }
 
 PENDING = "check not built yet in this session (work in progress; see DESIGN.md section 7 for the plan)"
